@@ -205,6 +205,10 @@ AspifOutput& AspifOutput::add(int x) {
 	os_ << " " << x;
 	return *this;
 }
+AspifOutput& AspifOutput::add(unsigned x) {
+	os_ << " " << x;
+	return *this;
+}
 AspifOutput& AspifOutput::add(const WeightLitSpan& lits) {
 	os_ << " " << size(lits);
 	for (const WeightLit_t* x = begin(lits); x != end(lits); ++x) {
